@@ -158,7 +158,7 @@ def run(tier):
     st = ea.run(MODULE, tier)
     LADDER_NOTE = '; plus the shared size and structure ladders (mc/alphabet.py boundary_specs / structure_specs): lengths and counts 5, 8, 9, 16, 17, 32, 33, 64, 65, 128, 129, 255, 256, 257, 1024, 1025, 4096, 4097, 8192, 8193 behind one-, two- and three-byte length fields with their exact encodings (and the same cut short), constant counts and sizes 15..257 first in a packet, far positions (holes of 255..8192 bytes), chains of 4..8 references, lists of lists of lists, nine-byte integers, bit runs of 40/72/80 bits, declarations of 24 components and runs of 17..40 fixed fields, holders whose options differ from the held class, the nested class alone on the field-by-field loop'
     cov = ea.coverage(st, 'every declaration of the alphabet without start-of-data positioning / class align / element alignment / read-to-end; for every '
-                          'input of the enumeration: accepted -> all (prefix, suffix) pairs of length <=%d over the declaration alphabet (which contains its '
+                          'input of the enumeration: accepted -> all (prefix, suffix) pairs of length <=%d (two for the single-component declarations of the thorough tier, one elsewhere and for inputs longer than 48 bytes) over the declaration alphabet (which contains its '
                           'markers and count bytes), suffixes skipped when the region ends in a regex delimiter; rejected -> all prefixes, error offsets must '
                           'shift; states = distinct (declaration, outcome, region end / error offset)' % (1 if tier == 'quick' else 2))
     cov['transitions'] = st.n.get('transitions', 0)
